@@ -45,9 +45,13 @@ CLAIMS = {
          "documented width rules Spec.typeOf (equal-or-unsized operands for bitwise/shift/comparison/in, boolean operands for "
          "&& || under strict-boolean-ops, arms agree, lo <= hi <= width, sized concatenation <= 128, exactly one always-true "
          "arm and it is last, ...) yield w; C08_target_rule for the assignment target; C08_width_is_semantic_width ties the "
-         "rule width to the evaluation width. Width-mutated programs at every depth/boundary are compared with model and Spec.",
-         "Program-level acceptance (which expression is checked against which target; constants and defaults) is modelled in "
-         "Program.new and compared differentially with Spec.faults; the parser bounds (128) come through the translator tie.",
+         "rule width to the evaluation width; C08_accepted (in every accepted program, under every iteration order, every "
+         "assignment's target has a width in the program's width table, the rules give its expression a width, and the two "
+         "are equal or the expression is unsized: a program in which an assignment breaks a width rule is never accepted). "
+         "Width-mutated programs at every depth/boundary are compared with model and Spec.",
+         "The converse at program level (every program rejected for a width reason breaks a rule; constants and register "
+         "defaults) is modelled in Program.new and compared differentially with Spec.faults; the parser bounds (128) come "
+         "through the translator tie.",
          "Lean 4 proof (mutual induction, scan invariants) + differential oracle on mutated programs"),
  "C09": ("Lean theorems about the model of Program::new's first stage (C09_stage1_rejects, step1_errors_mono, step1Name_double): every fault recorded by the stage (double declaration, double assignment, assignment to a built-in output or constant, constant reading a wire/undeclared name) makes Program.new return an error for every iteration order, and errors are never dropped. The full fault list of the statement is Spec.faults; fault injection of every class at every kind of name compares the real accept/reject and the (kind, name) multiset with the model, the verdict with Spec.faults, and requires the injected name in the diagnostics. C09_accepted: in every accepted program, under every iteration order, the value-writing actions have pairwise distinct outputs, none drives a register output or a constant, every wire read is a register output, a constant or the output of an earlier action, and the state-changing actions write no wire.",
          'Later stages (banks, unset wires, partial components) are covered by the model correspondence and Spec.faults oracle, not yet by theorems.',
